@@ -266,6 +266,9 @@ var neverNilCall func(v ssa.Value) bool
 
 func classify(v ssa.Value, env phiEnv, depth int) (valClass, ssa.Value) {
 	for i := 0; i < 8; i++ {
+		if c, ok := reachFacts[v]; ok {
+			return c, v
+		}
 		ph, ok := v.(*ssa.Phi)
 		if !ok {
 			break
@@ -475,7 +478,8 @@ func reachCoreX(b *ssa.BasicBlock, from int, target, barrier func(ssa.Instructio
 	}
 	defer func(old pathFacts) { reachFacts = old }(reachFacts)
 	visited := map[string]bool{}
-	work := []state{{b, from, nil, nil}}
+	work := []state{{b, from, nil, seedFacts}}
+	seedFacts = nil
 	steps := 0
 	for len(work) > 0 {
 		st := work[len(work)-1]
@@ -1511,6 +1515,30 @@ func returnLeaves(fn *ssa.Function, i int) []retLeaf {
 type nilTest struct {
 	iff            *ssa.If
 	nonNil, isNil *ssa.BasicBlock
+}
+
+// seedFacts, when set, is what the next search knows at its starting point (consumed by that search).
+var seedFacts pathFacts
+
+// reachFromNilSide searches from the side of a nil test on which the tested value is non-nil (or nil), knowing that.
+func reachFromNilSide(t nilTest, nonNil bool, target, barrier func(ssa.Instruction) bool) bool {
+	cmp, _ := t.iff.Cond.(*ssa.BinOp)
+	start, cls := t.isNil, clsNil
+	if nonNil {
+		start, cls = t.nonNil, clsNonNil
+	}
+	if cmp == nil {
+		return reachCore(start, 0, target, barrier)
+	}
+	v := cmp.X
+	if isNilConst(v) {
+		v = cmp.Y
+	}
+	// start at the branch itself, so that the phis of the side entered are bound by the edge taken; the fact decides
+	// the branch
+	seedFacts = pathFacts{v: cls}
+	b := t.iff.Block()
+	return reachCore(b, len(b.Instrs)-1, func(in ssa.Instruction) bool { return in != ssa.Instruction(t.iff) && target(in) }, barrier)
 }
 
 // nilTests lists the branches that test v against nil, whichever way the comparison is written.
